@@ -368,9 +368,23 @@ impl<'a, R: 'a + Read + Seek> Read for CompressionLayerReader<'a, R> {
         let old_state = std::mem::replace(&mut self.state, CompressionLayerReaderState::Empty);
         match old_state {
             CompressionLayerReaderState::Ready(mut inner) => {
-                self.sync_inner_with_uncompressed_pos(&mut inner, self.underlayer_pos)?;
+                // On error, give the inner layer back to the state: the reader
+                // must stay usable
+                let uncompressed_size = match self.uncompressed_block_size_at(self.underlayer_pos) {
+                    Ok(uncompressed_size) => uncompressed_size,
+                    Err(err) => {
+                        self.state = CompressionLayerReaderState::Ready(inner);
+                        return Err(err.into());
+                    }
+                };
+                if let Err(err) =
+                    self.sync_inner_with_uncompressed_pos(&mut inner, self.underlayer_pos)
+                {
+                    self.state = CompressionLayerReaderState::Ready(inner);
+                    return Err(err.into());
+                }
+                // Cannot fail: same conditions as `uncompressed_block_size_at`
                 let decompressor = Box::new(self.new_decompressor_at(inner, self.underlayer_pos)?);
-                let uncompressed_size = self.uncompressed_block_size_at(self.underlayer_pos)?;
                 self.state = CompressionLayerReaderState::InData {
                     read: 0,
                     uncompressed_size,
@@ -384,6 +398,8 @@ impl<'a, R: 'a + Read + Seek> Read for CompressionLayerReader<'a, R> {
                 mut decompressor,
             } => {
                 if read > uncompressed_size {
+                    self.state =
+                        CompressionLayerReaderState::Ready(decompressor.into_inner().into_inner());
                     return Err(Error::WrongReaderState(
                         "[Compression Layer] Too much data read".to_string(),
                     )
@@ -396,7 +412,18 @@ impl<'a, R: 'a + Read + Seek> Read for CompressionLayerReader<'a, R> {
                     return self.read(buf);
                 }
                 let size = std::cmp::min((uncompressed_size - read) as usize, buf.len());
-                let read_add = decompressor.read(&mut buf[..size])?;
+                let read_add = match decompressor.read(&mut buf[..size]) {
+                    Ok(read_add) => read_add,
+                    Err(err) => {
+                        // Keep the state: the reader must stay usable
+                        self.state = CompressionLayerReaderState::InData {
+                            read,
+                            uncompressed_size,
+                            decompressor,
+                        };
+                        return Err(err);
+                    }
+                };
                 self.underlayer_pos += read_add as u64;
                 self.state = CompressionLayerReaderState::InData {
                     read: read
@@ -430,6 +457,16 @@ impl<R: Read + Seek> Seek for CompressionLayerReader<'_, R> {
                         let inside_block = pos % u64::from(UNCOMPRESSED_DATA_SIZE);
                         let rounded_pos = pos - inside_block;
 
+                        // Check the position before changing the state: on
+                        // error, the reader must stay usable
+                        let end_pos = self
+                            .sizes_info
+                            .as_ref()
+                            .map_or(0, SizesInfo::max_uncompressed_pos);
+                        if pos > end_pos {
+                            return Err(Error::EndOfStream.into());
+                        }
+
                         // Move the underlayer at the start of the block
                         let old_state =
                             std::mem::replace(&mut self.state, CompressionLayerReaderState::Empty);
@@ -445,14 +482,27 @@ impl<R: Read + Seek> Seek for CompressionLayerReader<'_, R> {
                             self.underlayer_pos = pos;
                             return Ok(pos);
                         }
-                        self.sync_inner_with_uncompressed_pos(&mut inner, rounded_pos)?;
+                        if let Err(err) =
+                            self.sync_inner_with_uncompressed_pos(&mut inner, rounded_pos)
+                        {
+                            self.state = CompressionLayerReaderState::Ready(inner);
+                            return Err(err.into());
+                        }
 
                         // New decompressor at the start of the block
+                        // Cannot fail: `rounded_pos` is a block start inside the stream
                         let mut decompressor = self.new_decompressor_at(inner, rounded_pos)?;
                         let uncompressed_size = self.uncompressed_block_size_at(rounded_pos)?;
 
                         // Move forward inside the block to reach the expected position
-                        io::copy(&mut (&mut decompressor).take(inside_block), &mut io::sink())?;
+                        if let Err(err) =
+                            io::copy(&mut (&mut decompressor).take(inside_block), &mut io::sink())
+                        {
+                            self.state = CompressionLayerReaderState::Ready(
+                                decompressor.into_inner().into_inner(),
+                            );
+                            return Err(err);
+                        }
                         self.state = CompressionLayerReaderState::InData {
                             read: u32::try_from(inside_block).map_err(|_| {
                                 io::Error::new(
